@@ -344,6 +344,9 @@ func main() {
 	case "c13":
 		runC13(*in, reserved, b)
 		return
+	case "c11":
+		runC11(*in, b)
+		return
 	}
 	f, err := os.Open(*in)
 	if err != nil {
